@@ -156,3 +156,91 @@ func TestVerifSearch_SreadGarbage(t *testing.T) {
 		p.Close()
 	}
 }
+
+// ---- eventloop.cread: a locally answered request behind a forwarded one ----
+
+type verifHandler struct {
+	BuiltinEventEngine
+}
+
+// the part of the real handler that matters here: PING is answered locally, everything else is queued
+func (h *verifHandler) OnCReact(r *Msg, c CConn) ([]byte, Action) {
+	if r.Type == codec.ReqPing {
+		return []byte("+PONG\r\n"), None
+	}
+	c.EnqueueInMsg(r)
+	return nil, None
+}
+
+func TestVerifSearch_CreadLocalReplyOrder(t *testing.T) {
+	saved := EngineGlobal
+	defer func() { EngineGlobal = saved }()
+	eng := &engine{opts: &Options{}}
+	el := &eventloop{engine: eng, connections: map[int]*conn{}}
+	eng.el = el
+	el.eventHandler = &verifHandler{}
+	EngineGlobal = &Engine{eng: eng, cCodec: CRespCodec{10000}, sCodec: SRespCodec{10000}}
+	sp, err := unix.Socketpair(unix.AF_UNIX, unix.SOCK_STREAM, 0)
+	if err != nil {
+		t.Skipf("socketpair: %v", err)
+	}
+	defer unix.Close(sp[0])
+	defer unix.Close(sp[1])
+	unix.SetNonblock(sp[1], true)
+	c := &conn{fd: sp[0], loop: el, connType: ConnClient, opened: true, initStatus: Initialized,
+		inMsgQueue: &MsgQueue{}, inFragQueue: &FragQueue{}, outFragQueue: &FragQueue{}}
+	c.outboundBuffer, _ = elastic.New(1 << 16)
+	c.buffer = []byte("*2\r\n$3\r\nget\r\n$1\r\nk\r\n*1\r\n$4\r\nping\r\n")
+	if err := el.cread(c); err != nil {
+		t.Fatalf("cread: %v", err)
+	}
+	buf := make([]byte, 256)
+	n, _ := unix.Read(sp[1], buf)
+	if n > 0 && c.inMsgQueue.count > 0 {
+		verifWitness(t, "pipeline GET k; PING: the client already received %q while the reply to the earlier GET is still outstanding (%d request queued): replies out of request order", buf[:n], c.inMsgQueue.count)
+	}
+}
+
+// ---- eventloop.sread: a completed reply must not be withheld by a later request ----
+func TestVerifSearch_FlushPrefix(t *testing.T) {
+	saved := EngineGlobal
+	defer func() { EngineGlobal = saved }()
+	eng := &engine{opts: &Options{}}
+	el := &eventloop{engine: eng, connections: map[int]*conn{}}
+	eng.el = el
+	el.eventHandler = &verifHandler{}
+	EngineGlobal = &Engine{eng: eng, cCodec: CRespCodec{10000}, sCodec: SRespCodec{10000}}
+	sp, err := unix.Socketpair(unix.AF_UNIX, unix.SOCK_STREAM, 0)
+	if err != nil {
+		t.Skipf("socketpair: %v", err)
+	}
+	defer unix.Close(sp[0])
+	defer unix.Close(sp[1])
+	unix.SetNonblock(sp[1], true)
+	mk := func(fd int, typ ConnType) *conn {
+		c := &conn{fd: fd, loop: el, connType: typ, opened: true, initStatus: Initialized,
+			inMsgQueue: &MsgQueue{}, inFragQueue: &FragQueue{}, outFragQueue: &FragQueue{}}
+		c.outboundBuffer, _ = elastic.New(1 << 16)
+		return c
+	}
+	client := mk(sp[0], ConnClient)
+	a, b := mk(1001, ConnServer), mk(1002, ConnServer)
+	req := func(id uint64, s *conn) {
+		m := &Msg{Id: id, Type: codec.ReqGet, Owner: client}
+		f := &Frag{Id: id, Owner: client, Peer: m, Type: codec.ReqGet, Key: "k"}
+		m.Body = map[int32]*Frag{int32(id): f}
+		client.EnqueueInMsg(m)
+		s.inFragQueue.PushTail(f)
+	}
+	req(1, a) // oldest request, fast backend
+	req(2, b) // newer request, backend that never answers
+	a.buffer = []byte("$1\r\nA\r\n")
+	if err := el.sread(a); err != nil {
+		t.Fatalf("sread: %v", err)
+	}
+	buf := make([]byte, 256)
+	n, _ := unix.Read(sp[1], buf)
+	if n <= 0 && client.inMsgQueue.count == 2 && client.inMsgQueue.head.Done {
+		verifWitness(t, "requests 1 (backend a) and 2 (backend b) pipelined; a answered request 1, b is silent: the client received nothing, the completed reply %q stays queued behind request 2 for as long as the client keeps a later request outstanding", client.inMsgQueue.head.RspBody)
+	}
+}
